@@ -1110,6 +1110,25 @@ pub fn check_c06(tier: &str) -> i32 {
         st.sample(json!({"role": "server", "frame": name, "bytes": f.len()}));
     });
     rep.phase("receive: corrupted requests (server role)", st, json!({"frames": reqs.len()}));
+    // the same frames (intact, single-bit corrupted in the address / function / first data byte /
+    // CRC, and prefixed by one stray byte) split at every position with a server command handled
+    // between the two reads: what the session does between reads must not move the frame boundary
+    let short: Vec<&(&str, Vec<u8>)> = reqs.iter().filter(|(_, f)| f.len() <= 48).collect();
+    let st = parallel(short.len(), |i, st| {
+        let (name, f) = short[i];
+        let n = f.len();
+        let mut variants: Vec<(String, Vec<u8>)> = vec![(format!("{name}"), f.clone())];
+        for bit in [0usize, 8, 16, 8 * (n - 2), 8 * n - 1] {
+            variants.push((format!("{name}+bit{bit}"), flip(f, &[bit])));
+        }
+        let mut stray = vec![0x55u8];
+        stray.extend_from_slice(f);
+        variants.push((format!("stray-byte+{name}"), stray));
+        for (label, stream) in variants {
+            server_stream_job_with_command("C06", &cfg, &label, &stream, st);
+        }
+    });
+    rep.phase("receive: a server command between two reads of one (intact or corrupted) frame", st, json!({"frames": short.len()}));
     // receive, client role
     let st = parallel(resps.len(), |i, st| {
         let (name, req, f) = &resps[i];
